@@ -650,7 +650,7 @@ theorem ro_waits_only_for_wakeable (w : World) (r : StepResult) (h : reconcile w
         subst h
         dsimp only at hrq hro
         have hq := inRolling_quiet w ns s os wl r0 hos hsame hs hcore hr hin (by simpa using hne) hrq hro
-        rcases hq with ⟨hbg, hcont⟩ | hq | ⟨hq, st, hst, hm⟩ | hq
+        rcases hq with ⟨hbg, hcont⟩ | ⟨hnorm, hq | ⟨hq, st, hst, hm⟩ | hq⟩
         · left
           unfold roAwaits
           simp only [hph, hr, hos, hwl]
@@ -863,6 +863,20 @@ theorem cleanup_never_rests (w : World) (r : StepResult) (h : reconcile w = .val
     · rcases hr with hr | hr <;> simp [hp, hr]
     · simp [hp, hd]
     · simp [hp]
+
+/-- the same for a continuous release of a canary rollout (`doProgressingReset`: traffic back, BatchRelease deleted and waited
+    for, canary Service removed): every reconcile of every such world wakes itself -/
+theorem reset_never_rests (w : World) (r : StepResult) (s : Sub) (wl : WL) (h : reconcile w = .val r)
+    (hp : w.ro.phase = .progressing) (hr : w.ro.reason = .inRolling) (hs : w.ro.sub = some s) (hst : s.state ≠ .other)
+    (hwl : w.wl = some wl) (hstyle : w.ro.style = .canary) (hc : continuousRelease s wl = true) :
+    (roWakes w r).ro = true ∨ r.roGone = true := by
+  apply ro_not_waiting_wakes_itself w r h
+  · unfold roAwaits
+    simp only [hp, hr, hs, hwl, hstyle]
+    rw [if_neg (by simp)]
+    rw [if_pos (by simp [rollingNormally, hc])]
+  · unfold roIllFormed
+    simp [hp, hr, hs, hst]
 
 /-- `removeBatchRelease` reports "retry" exactly as long as the object exists (it never reports done on the strength of
     having issued the Delete) -/
